@@ -269,7 +269,7 @@ class SStr(Proxy):
     @classmethod
     def in_set(cls, ct, chars):
         if chars is None:
-            return z3.Or(*[ct == w for w in cls.WS])
+            return is_space_char(ct)
         return z3.Or(*[ct == ord(c) for c in chars]) if chars else z3.BoolVal(False)
 
     def lstrip(self, chars=None):
@@ -333,9 +333,29 @@ def concat(parts):
 
 
 # character classes -----------------------------------------------------------------
+uni_word = z3.Function('non_ascii_word_char', Int, z3.BoolSort())
+_uni_space = z3.Function('non_ascii_space_char', Int, z3.BoolSort())
+WS_ASCII = (9, 10, 11, 12, 13, 28, 29, 30, 31, 32)
+
+
+def uni_space(ct):
+    return z3.And(_uni_space(ct), z3.Not(uni_word(ct)))      # no code point is both whitespace and a word character
+
+
+def is_space_char(ct):
+    """str.isspace() / the regex class \\s of a str pattern: the ASCII set and, uninterpreted, the non-ASCII whitespace"""
+    return z3.Or(*([ct == w for w in WS_ASCII] + [z3.And(ct >= 128, uni_space(ct))]))
+
+
 def is_ident_char(ct):
-    """ASCII identifier characters [A-Za-z0-9_] (non-ASCII is outside the stated encoding)"""
-    return z3.Or(z3.And(ct >= 48, ct <= 57), z3.And(ct >= 65, ct <= 90), z3.And(ct >= 97, ct <= 122), ct == 95)
+    """identifier characters: [A-Za-z0-9_], and for a non-ASCII code point an uninterpreted predicate (the letters / digits of
+    Unicode).  Assumed: for non-ASCII code points the regex class \\w and "may continue a Python identifier" are the same set."""
+    return z3.Or(z3.And(ct >= 48, ct <= 57), z3.And(ct >= 65, ct <= 90), z3.And(ct >= 97, ct <= 122), ct == 95,
+                 z3.And(ct >= 128, uni_word(ct)))
+
+
+def is_code_point(ct):
+    return z3.And(ct >= 0, ct < 0x110000)
 
 
 def is_ascii(ct):
